@@ -90,9 +90,9 @@ def pick_step(src, n, steps=STEPS):
 
 
 @rigged
-def step(src, n=2, peer_views='abstract', steps=STEPS, fsm_states=FC.FSM):
+def step(src, n=2, peer_views='abstract', steps=STEPS, fsm_states=FC.FSM, sync=FC.SYNC_CHOICES):
     st, ev_from = pick_step(src, n, steps)
-    core, sit = FC.build(src, n=n, peer_views=peer_views, fsm_states=fsm_states, blank_peer=ev_from)
+    core, sit = FC.build(src, n=n, peer_views=peer_views, fsm_states=fsm_states, blank_peer=ev_from, sync=sync)
     sit.update(step=st, ev_from=ev_from, peer_views=peer_views)
     if st in ('restart', 'shutdown', 'end_sync'):
         # XML-RPCs are served by a live instance: beyond OFF the local instance sees itself RUNNING
@@ -111,8 +111,8 @@ def _classify(observations):
 
 
 HARNESSES = [
-    Harness('H02a', step, quick={'n': 2}, thorough={'n': 2, 'peer_views': 'full'}, reach=('moved', 'stayed'),
-            timeout=(150, 1500),
+    Harness('H02a', step, quick={'n': 2, 'sync': ('LIST', 'TIMEOUT', 'CORE', 'USER')},
+            thorough={'n': 2, 'peer_views': 'full'}, reach=('moved', 'stayed'), timeout=(240, 1800),
             classify=_classify,
             doc='one real FSM entry point (tick, peer state event, restart, shutdown, end_sync, process crash) from '
                 'an arbitrary symbolic situation, N=2; published state sequence vs the documented graph'),
